@@ -50,12 +50,17 @@ fn sweep(p: &EpParams) -> u64 {
     phases(p) * deadlines(p).len() as u64 * KINDS.len() as u64
 }
 
+/// Whole pages of leases that run out in one instant, with requests arriving in that instant.
+fn n_mass(p: &EpParams) -> u64 {
+    if p.engine == "miri" { 0 } else if tier_thorough(p) { 64 } else { 16 }
+}
+
 pub fn plan(p: &EpParams) -> Plan {
     Plan {
-        episodes: sweep(p) + n_random(p),
+        episodes: sweep(p) + n_random(p) + n_mass(p),
         exhaustive: true,
         rule: format!(
-            "phase sweep: hand-out at every ms phase 0..{} of the 100 ms grid (plus the episode's random sub-ms offset) x ack_deadline_seconds in {:?} x consumer kinds {:?} (exhaustive at ms granularity: {} cases), each probed at D-1ms and D+slack+1ms and followed by ack(old id) / second expiry / ack(new id); plus {} random SEQ histories with coexisting leases of different deadlines. Non-trivial: a lease was left to expire and was probed on both sides of its deadline. Distinct: (ms phase, deadline value, consumer kind) / abstract operation sequence.",
+            "phase sweep: hand-out at every ms phase 0..{} of the 100 ms grid (plus the episode's random sub-ms offset) x ack_deadline_seconds in {:?} x consumer kinds {:?} (exhaustive at ms granularity: {} cases), each probed at D-1ms and D+slack+1ms and followed by ack(old id) / second expiry / ack(new id); plus {} random SEQ histories with coexisting leases of different deadlines; plus pages of 1000-2000 leases that run out in one instant while look-ups arrive at the subscription every millisecond. Non-trivial: a lease was left to expire and was probed on both sides of its deadline. Distinct: (ms phase, deadline value, consumer kind) / abstract operation sequence.",
             phases(p) - 1, deadlines(p), KINDS, sweep(p), n_random(p)
         ),
     }
@@ -71,6 +76,8 @@ async fn episode(p: &EpParams) -> EpReport {
     let idx = p.get_u64("index").unwrap_or(0);
     if idx < sweep(p) {
         sweep_episode(p, idx).await
+    } else if idx >= sweep(p) + n_random(p) {
+        mass_episode(p).await
     } else {
         random_episode(p).await
     }
@@ -255,6 +262,74 @@ async fn sweep_episode(p: &EpParams, idx: u64) -> EpReport {
     seq.flush(&mut rep);
     rep.key = format!("phase={} deadline={} kind={}", phase, d, kind);
     rep.history = seq.history(60);
+    w.shutdown();
+    rep
+}
+
+/// 1000-2000 messages handed out in pages of up to 1000 and never acknowledged; while their leases
+/// run out (a page at a time, in one instant each) look-ups keep arriving at the subscription, 3 per
+/// millisecond. Every message comes back (the exact model and the hooked counts decide).
+async fn mass_episode(p: &EpParams) -> EpReport {
+    let mut rep = EpReport::default();
+    let mut rng = Rng::new(p.ep_seed);
+    let w = World::new(transport_of(p), true, Some(rng.below(100))).await;
+    let mut seq = Seq::new(&w);
+    seq.check_stats_every_step = false;
+    let (t, s) = (topic_name(1, 1), sub_name(1, 1));
+    seq.create_topic(&t).await;
+    seq.create_sub(&s, &t, 10).await;
+    let n = *rng.pick(&[1000usize, 1001, 1500, 2000]);
+    let mut left = n;
+    while left > 0 {
+        let k = left.min(1000);
+        seq.publish(&t, k).await;
+        left -= k;
+    }
+    let mut handed = 0;
+    for _ in 0..4 {
+        let got = seq.pull(&s, 1000, true).await;
+        handed += got.len();
+        if got.is_empty() {
+            break;
+        }
+    }
+    let first_lo = seq.m.subs[&s].leases.values().map(|l| l.lo).min().unwrap_or(0);
+    let last_hi = seq.m.subs[&s].leases.values().map(|l| l.hi).max().unwrap_or(0);
+    if handed == n && first_lo > seq.now() + 5 * MS {
+        seq.advance_to(first_lo - 2 * MS).await;
+        let mut look = 0u32;
+        while seq.now() < last_hi + 5 * MS {
+            for _ in 0..3 {
+                look += 1;
+                let (c, sp) = (crate::client::Cx::new(&w, 500 + look % 64), s.clone());
+                tokio::spawn(async move {
+                    let _ = c.get_sub(&sp).await;
+                });
+            }
+            tokio::time::sleep(Duration::from_millis(1)).await;
+        }
+        rep.add("lookups_while_pages_expire", look as u64);
+        seq.advance_to(last_hi + SLACK_SPEC + MS).await;
+        seq.check_stats("Advance").await;
+        let mut back = 0;
+        for _ in 0..6 {
+            let got = seq.pull(&s, 1000, true).await; // the model flags what is missing (C04:late / C01)
+            back += got.len();
+            if got.is_empty() {
+                break;
+            }
+        }
+        if back == n {
+            rep.inc("whole_pages_redelivered_after_one_instant_expiry");
+        }
+        seq.check_stats("Pull").await;
+        rep.nontrivial = true;
+    } else {
+        rep.inconclusive("mass expiry: hand-out incomplete");
+    }
+    seq.flush(&mut rep);
+    rep.key = format!("mass n={}", n);
+    rep.history = seq.history(40);
     w.shutdown();
     rep
 }
